@@ -66,7 +66,8 @@ def gen_abs(rng, n_inst=None, lib=None):
     a = Abs(lib)
     kinds = list(CELLS[lib])
     n_pi = rng.randint(1, 4)
-    a.pis = [f'a{i}' for i in range(n_pi)]
+    pstyle = rng.choice(['plain', 'plain', 'bus'])        # port names: plain identifiers, or bus bits written as escaped identifiers
+    a.pis = [(f'd[{i}]' if pstyle == 'bus' else f'a{i}') for i in range(n_pi)]
     for p in a.pis:
         a.nets[p] = {'drv': ('pi', p), 'readers': []}
     n_inst = n_inst if n_inst is not None else rng.choice([1, 2, 2, 3, 4, 5, 7])
@@ -84,7 +85,7 @@ def gen_abs(rng, n_inst=None, lib=None):
     cand = [(i, p) for i, inst in enumerate(a.insts) for p, n in inst['outs'].items() if n is not None]
     for j, (i, p) in enumerate(rng.sample(cand, min(len(cand), rng.randint(1, 3)))):
         old = a.insts[i]['outs'][p]
-        new = f'z{j}'
+        new = f'q[{j}]' if pstyle == 'bus' else f'z{j}'
         a.nets[new] = a.nets.pop(old)
         a.insts[i]['outs'][p] = new
         a.nets[new]['readers'].append(('po', new))
@@ -107,16 +108,16 @@ def vname(n):
 def render_verilog(rng, a):
     ports = a.pis + a.pos
     wires = [n for n in a.nets if n not in ports]
-    t = [f'module top ({", ".join(ports)});']
-    t.append(f'  input {", ".join(a.pis)};')
-    t.append(f'  output {", ".join(a.pos)};')
+    t = [f'module top ({", ".join(vname(p) for p in ports)});']
+    t.append(f'  input {", ".join(vname(p) for p in a.pis)};')
+    t.append(f'  output {", ".join(vname(p) for p in a.pos)};')
     if wires:
-        t.append(f'  wire {", ".join(wires)};')
+        t.append(f'  wire {", ".join(vname(w) for w in wires)};')
     for inst in a.insts:
         pins = []
         for p, n in list(inst['ins'].items()) + list(inst['outs'].items()):
             if n is not None:
-                pins.append(f'.{p}({n})')
+                pins.append(f'.{p}({vname(n)})')
             elif rng.random() < 0.5:
                 pins.append(f'.{p}()')
         rng.shuffle(pins)
@@ -277,7 +278,9 @@ def fmt_triple(t):
 
 
 def pin_ref(a, x, style='esc', rng=None):
-    return x if isinstance(x, str) else sdf_name(rng, a.insts[x[0]]['name'], style) + '/' + x[1]
+    if isinstance(x, str):      # a port: its special characters are escaped in SDF (or not) like those of instance names
+        return sdf_name(rng, x, rng.choice(['esc', 'esc', 'raw']) if rng is not None else style)
+    return sdf_name(rng, a.insts[x[0]]['name'], style) + '/' + x[1]
 
 
 def render_entry(rng, a, e):
